@@ -38,6 +38,7 @@ pub fn core_builtins() -> BuiltinRegistry<E> {
 pub fn io_builtins() -> BuiltinRegistry<E> {
     let mut b = core_builtins();
     quiver_io::attach_file_builtins(&mut b);
+    quiver_io::attach_network_builtins(&mut b);
     b
 }
 
